@@ -54,11 +54,17 @@ Lookup(es, e, name) == IF e = 0 THEN 0 ELSE IF name \in DOMAIN es[e].vars THEN e
 Bind(es, e, name, v) == [es EXCEPT ![e].vars = (name :> v) @@ es[e].vars]
 NewScope(es, parent) == Append(es, [parent |-> parent, vars |-> <<>>])
 
+(* The documentation fixes no order for the key / value listings of an object, only that the two agree and do not
+   change while the object is unmodified.  The machine lists in insertion order, tags the listing array with the
+   object and its modification count (lst), and stops being judged when a program looks INSIDE such an array. *)
+IsListing(cell) == "lst" \in DOMAIN cell /\ Len(cell.e) >= 2
+
 (* snapshot of a value for output: references are resolved against the heap at print time *)
 RECURSIVE Snap(_, _, _, _)
 Snap(v, h, nfc, d) ==
   IF d = 0 THEN [t |-> "deep"]
-  ELSE CASE v.t = "arr" -> [t |-> "arr", e |-> [i \in 1..Len(h[v.r].e) |-> Snap(h[v.r].e[i], h, nfc, d - 1)]]
+  ELSE CASE v.t = "arr" -> (LET es == [i \in 1..Len(h[v.r].e) |-> Snap(h[v.r].e[i], h, nfc, d - 1)] IN
+                           IF IsListing(h[v.r]) THEN [t |-> "arr", e |-> es, lst |-> h[v.r].lst] ELSE [t |-> "arr", e |-> es])
          [] v.t = "obj" -> [t |-> "obj", ks |-> h[v.r].ks, vs |-> [i \in 1..Len(h[v.r].vs) |-> Snap(h[v.r].vs[i], h, nfc, d - 1)]]
          [] v.t = "fn"  -> [t |-> "fn", name |-> h[v.r].name]
          [] v.t = "str" -> [t |-> "str", s |-> IF nfc THEN NFC(v.s) ELSE v.s]
@@ -256,8 +262,8 @@ IndexIn(v, len) ==    \* position (1-based) denoted by index value v in a sequen
 RECURSIVE PosOf(_, _)
 PosOf(ks, key) == IF ks = <<>> THEN 0 ELSE IF Head(ks) = key THEN 1 ELSE (LET r == PosOf(Tail(ks), key) IN IF r = 0 THEN 0 ELSE r + 1)
 ObjPut(cell, key, v) == LET i == PosOf(cell.ks, key) IN
-                        IF i = 0 THEN [cell EXCEPT !.ks = Append(cell.ks, key), !.vs = Append(cell.vs, v)]
-                        ELSE [cell EXCEPT !.vs[i] = v]
+                        IF i = 0 THEN [cell EXCEPT !.ks = Append(cell.ks, key), !.vs = Append(cell.vs, v), !.ver = cell.ver + 1]
+                        ELSE [cell EXCEPT !.vs[i] = v, !.ver = cell.ver + 1]
 RECURSIVE ObjOf(_, _, _)
 ObjOf(ks, vs, acc) == IF ks = <<>> THEN acc ELSE ObjOf(Tail(ks), Tail(vs), ObjPut(acc, Head(ks), Head(vs)))
 RemoveAt(s, i) == SubSeq(s, 1, i - 1) \o SubSeq(s, i + 1, Len(s))
@@ -292,6 +298,7 @@ InvokeNative(name, args, k) ==
          IsObj(i) == Len(args) >= i /\ args[i].t = "obj"
      IN
      CASE name = "len" -> (IF IsArr(1) THEN OK(N(Len(heap[args[1].r].e))) ELSE Fail("native"))       \* LenIsCount
+       [] name \in {"push", "remove"} /\ IsArr(1) /\ IsListing(heap[args[1].r]) -> Stop("listing-order")
        [] name = "push" -> (IF Len(args) >= 2 /\ IsArr(1)                                            \* PushRemoveArePure: a fresh array
                             THEN New([t |-> "arr", e |-> heap[args[1].r].e \o Tail(args)], VArr) ELSE Fail("native"))
        [] name = "remove" -> (IF ~IsArr(1) THEN Fail("native")
@@ -301,12 +308,14 @@ InvokeNative(name, args, k) ==
        [] name = "delkey" -> (IF ~IsObj(1) \/ args[2].t # "str" THEN Fail("native")                  \* DeleteExact
                               ELSE LET cell == heap[args[1].r]  i == PosOf(cell.ks, CpsStr(args[2].s)) IN
                                    IF i = 0 THEN Fail("native")
-                                   ELSE /\ heap' = [heap EXCEPT ![args[1].r] = [cell EXCEPT !.ks = RemoveAt(cell.ks, i), !.vs = RemoveAt(cell.vs, i)]]
+                                   ELSE /\ heap' = [heap EXCEPT ![args[1].r] = [cell EXCEPT !.ks = RemoveAt(cell.ks, i), !.vs = RemoveAt(cell.vs, i), !.ver = cell.ver + 1]]
                                         /\ Goto([m |-> "val", v |-> args[1]], k)
                                         /\ UNCHANGED <<out, stdin, status, diags, why, cur, envs, ln>>)
-       [] name = "keys" -> (IF IsObj(1) THEN New([t |-> "arr", e |-> [i \in 1..Len(heap[args[1].r].ks) |-> VStr(StrCps(heap[args[1].r].ks[i]))]], VArr)
+       [] name = "keys" -> (IF IsObj(1) THEN New([t |-> "arr", e |-> [i \in 1..Len(heap[args[1].r].ks) |-> VStr(StrCps(heap[args[1].r].ks[i]))],
+                                                  lst |-> [of |-> args[1].r, ver |-> heap[args[1].r].ver, kind |-> "keys"]], VArr)
                             ELSE Fail("native"))                                                     \* KeysValuesAligned: same listing order
-       [] name = "values" -> (IF IsObj(1) THEN New([t |-> "arr", e |-> heap[args[1].r].vs], VArr) ELSE Fail("native"))
+       [] name = "values" -> (IF IsObj(1) THEN New([t |-> "arr", e |-> heap[args[1].r].vs,
+                                                    lst |-> [of |-> args[1].r, ver |-> heap[args[1].r].ver, kind |-> "values"]], VArr) ELSE Fail("native"))
        [] name \in {"min", "max"} ->
             (IF Len(args) = 0 THEN Fail("native")
              ELSE Pure(MinMax(name = "min", IF Len(args) = 1 /\ IsArr(1) THEN heap[args[1].r].e ELSE args)))
@@ -342,6 +351,7 @@ Apply(n, vs, k) ==
                        IF e = 0 THEN Raise("undef")
                        ELSE /\ envs' = [envs EXCEPT ![e].vars[n.name] = vs[1]] /\ Goto([m |-> "val", v |-> vs[1]], k)
                             /\ Quiet /\ UNCHANGED <<cur, heap, ln>>)
+    [] n.k \in {"idx", "iasg"} /\ vs[1].t = "arr" /\ IsListing(heap[vs[1].r]) -> StopUnspec("listing-order")
     [] n.k = "idx" -> (IF vs[1].t # "arr" THEN (IF Vague(vs[1]) THEN StopUnspec("vague-operand") ELSE Raise("index"))   \* IndexRead
                        ELSE LET ix == IndexIn(vs[2], Len(heap[vs[1].r].e)) IN
                             IF ix.r = "val" THEN Finish(Val(heap[vs[1].r].e[ix.v]), k) ELSE Finish(ix, k))
@@ -356,7 +366,7 @@ Apply(n, vs, k) ==
     [] n.k = "pasg" -> /\ heap' = [heap EXCEPT ![vs[1].r] = ObjPut(heap[vs[1].r], n.name, vs[2])]                       \* PropStore
                        /\ Goto([m |-> "val", v |-> vs[2]], k) /\ Quiet /\ UNCHANGED <<cur, envs, ln>>
     [] n.k = "arr" -> Alloc([t |-> "arr", e |-> vs], VArr, k)                                                          \* ArrLitDone
-    [] n.k = "obj" -> Alloc(ObjOf(n.keys, vs, [t |-> "obj", ks |-> <<>>, vs |-> <<>>]), VObj, k)                      \* ObjLitDone
+    [] n.k = "obj" -> Alloc([ObjOf(n.keys, vs, [t |-> "obj", ks |-> <<>>, vs |-> <<>>, ver |-> 0]) EXCEPT !.ver = 0], VObj, k)                      \* ObjLitDone
     [] n.k = "call" -> (IF vs[1].t = "fn" THEN InvokeUser(vs[1], Tail(vs), k)
                         ELSE InvokeNative(vs[1].name, Tail(vs), k))
 
